@@ -78,7 +78,7 @@ class C07(ScanCheck):
                 idx = in_range_index(rng, r)
             base = None if idx == (0, 0) else idx
             mbn = None if mb in (None, (0, 0)) else mb
-            usemain = (base == mbn) and rng.random() < 0.6
+            usemain = (base == mbn) and rng.random() < 0.75
             if forced:
                 tag = "y"
             else:
@@ -94,7 +94,7 @@ class C07(ScanCheck):
             c = rng.random()
             if big:
                 c = 0.55 + 0.45 * c if rng.random() < 0.8 else c      # mostly cheap filler
-            if c < 0.35:
+            if c < 0.40:
                 outs.append(own(i))
             elif c < 0.45:
                 idx = out_of_range_index(rng, r)
@@ -134,8 +134,8 @@ class C07(ScanCheck):
 
     def gen_cases(self, tier, rng):
         q = tier == "quick"
-        plan = [(1, 40), (2, 40), (3, 50)] if q else [(1, 300), (2, 300), (3, 400), (7, 200)]
-        big = [(130, 6), (260, 5)] if q else [(130, 40), (260, 40), (2000, 3), (20000, 1)]
+        plan = [(1, 60), (2, 70), (3, 90)] if q else [(1, 300), (2, 300), (3, 400), (7, 200)]
+        big = [(130, 8), (260, 6)] if q else [(130, 40), (260, 40), (2000, 3), (20000, 1)]
         scen = []
         # evaluator-A scenario: no tx public key, one garbage output, table = {(0,0)}: one key validation under vm_compute
         ea = sc.mk_scenario(rng, sc.rscalar(rng), sc.rscalar(rng), [sc.mk_out_raw(rng, sc.garbage_key(rng))], version=1,
